@@ -35,6 +35,8 @@ def reviewedSafe : List Reviewed := [
     why := "only reached through ParseMethodArgs after abi.Arguments.Copy, which stores a non-nil *big.Int for every uint256 input (go-ethereum ABI, trusted); harness: random/mutated calldata through the real precompile" },
   { pkg := "x/crosschain/types", recv := "ERC20Token", meth := "ValidateBasic", kind := "nilint", expr := "m.Amount.IsPositive()",
     why := "no caller in fx-core (ERC20Token is a stored batch item, not a message or packet field); not reachable from hostile input" },
+  { pkg := "x/ibc/middleware/types", recv := "IbcCallEvmPacket", meth := "ValidateBasic", kind := "nilint", expr := "icep.Value.IsNegative()",
+    why := "the only decoder of a MemoPacket is codec.UnmarshalInterfaceJSON on the ICS-20 memo (keeper.HandlerIbcCall); gogoproto jsonpb leaves the non-nullable customtype sdkmath.Int initialised (0) when the key is absent and rejects null and the empty string; the suspected nil dereference (DESIGN 6-L) reproduces only on a hand-built struct, not through the real decode path; the harness memo stream checks that Value.IsNil() never holds after decoding" },
   { pkg := "x/crosschain/types", meth := "EthAddressFromSignature", kind := "deref", expr := "*pubkey",
     why := "pubkey, err := crypto.SigToPub(..); err != nil returns first; SigToPub never returns (nil, nil)" },
   { pkg := "x/migrate/types", recv := "MsgMigrateAccount", meth := "ValidateBasic", kind := "deref", expr := "*pubKey",
